@@ -182,6 +182,11 @@ extern int mpt_config_message_next(MPT_STRUCT(path) *path, int sep, MPT_STRUCT(m
 	
 	/* consume path and separator */
 	len = mpt_message_read(&tmp, len, addr);
+	/* path covers the argument and its terminator */
+	buf->_used = len + 1;
+	path->off = 0;
+	path->len = len + 1;
+	path->first = 0;
 	if (sep >= 0) {
 		mpt_message_read(&tmp, 1, 0);
 	}
